@@ -335,25 +335,21 @@ impl MutableArchive {
         let is_internal_update = archive_name == "(listfile)" || archive_name == "(attributes)";
 
         // Check if file exists and if we should replace it
-        let existing_block_index =
-            if let Some((hash_index, entry)) = self.find_file_entry(&archive_name)? {
-                if !options.replace_existing {
-                    return Err(Error::FileExists(archive_name));
-                }
-                // Mark the existing entry as deleted for now
-                if let Some(hash_table) = &mut self.hash_table {
-                    hash_table.get_mut(hash_index).unwrap().block_index = HashEntry::EMPTY_DELETED;
-                }
+        let existing_entry = self.find_file_entry(&archive_name)?;
+        let existing_block_index = if let Some((_, entry)) = existing_entry {
+            if !options.replace_existing {
+                return Err(Error::FileExists(archive_name));
+            }
 
-                // If this is a special file update, remember its block index for reuse
-                if is_internal_update {
-                    Some(entry.block_index)
-                } else {
-                    None
-                }
+            // If this is a special file update, remember its block index for reuse
+            if is_internal_update {
+                Some(entry.block_index)
             } else {
                 None
-            };
+            }
+        } else {
+            None
+        };
 
         // Determine block index - reuse for special files, allocate new for regular files
         let block_index = if let Some(existing_idx) = existing_block_index {
@@ -377,6 +373,14 @@ impl MutableArchive {
         // Write the file data to the archive
         self.file.seek(SeekFrom::Start(file_offset))?;
         self.file.write_all(&compressed_data)?;
+
+        // The new data is in place: only now release the entry being replaced, so that a
+        // failed addition leaves the existing file reachable
+        if let Some((hash_index, _)) = existing_entry
+            && let Some(hash_table) = &mut self.hash_table
+        {
+            hash_table.get_mut(hash_index).unwrap().block_index = HashEntry::EMPTY_DELETED;
+        }
 
         // Update next file offset for subsequent files in this session
         let next_offset = file_offset + compressed_data.len() as u64;
